@@ -103,6 +103,9 @@ const (
 	withoutCatchPanics
 	withoutBracketedPaste
 	withReportFocus
+	// Signals stay ignored for the whole life of the program, also after
+	// the terminal has been released and restored.
+	withoutSignals
 )
 
 // channelHandlers manages the series of channels returned by various processes.
@@ -813,7 +816,9 @@ func (p *Program) ReleaseTerminal() error {
 // terminal to the former state when the program was running, and repaints.
 // Use it to reinitialize a Program after running ReleaseTerminal.
 func (p *Program) RestoreTerminal() error {
-	atomic.StoreUint32(&p.ignoreSignals, 0)
+	if !p.startupOptions.has(withoutSignals) {
+		atomic.StoreUint32(&p.ignoreSignals, 0)
+	}
 
 	if err := p.initTerminal(); err != nil {
 		return err
